@@ -256,7 +256,10 @@ fn histories(rep: &Report, instances: usize, n: usize, global: &mut Pool) {
     for round in 0..n {
         for (ii, issuer) in issuers.iter_mut().enumerate() {
             l.evals += 1;
-            let o = drive::issue(issuer, &u, &Strat::All, None, true, Fmt::Compact);
+            // the same claims again and again, the serialization alternating with every call and decoys off on
+            // every fourth: nothing of an earlier issuance may be reused by a later one
+            let cfg = Cfg { fmt: if round % 2 == 0 { Fmt::Compact } else { Fmt::Json }, decoys: round % 4 != 3, ..cfg };
+            let o = drive::issue(issuer, &u, &Strat::All, None, cfg.decoys, cfg.fmt);
             let h = harvest(&u, &Strat::All, &cfg, &o);
             for (site, detail) in &h.problems {
                 l.violation(Violation::new("issue", "malformed_salt_or_digest", site.as_str(), "history", detail.clone(), json!({"kind": "c14_history", "instances": instances, "n": n})));
@@ -266,7 +269,7 @@ fn histories(rep: &Report, instances: usize, n: usize, global: &mut Pool) {
     }
     l.nontrivial += (instances * n) as u64;
     rep.merge(l);
-    rep.scope_done(json!({"scope": format!("sequential history: {instances} issuer instances x {n} issuances of the same AllLevels claims with decoys")}));
+    rep.scope_done(json!({"scope": format!("sequential history: {instances} issuer instances x {n} issuances of the same AllLevels claims, compact and JSON alternating, decoys on except every fourth call")}));
 }
 
 /// Free-running OS threads (no scheduler): auxiliary, labelled as sampling of schedules.
